@@ -1,6 +1,10 @@
 import CookModel.Analysis.Collector
 import CookModel.Lemmas.ExtLawsStep
 import CookModel.Lemmas.ExtLawsAnalysis
+import CookModel.Lemmas.ExtLawsTimer
+import CookModel.Lemmas.ExtLawsAnalysisFull
+import CookModel.Lemmas.ExtLawsEvents
+import CookModel.Lemmas.ExtLawsLocal
 import CookModel.Lemmas.LexLaws
 /-
   C02  Core-syntax recipes parse identically under every extension subset.
@@ -166,6 +170,199 @@ example : ([.metadata (Text.fromStr ['s','e','r','v','i','n','g','s'] 3) (Text.f
     .text (Text.fromStr ['M','i','x',' ','w','e','l','l','.'] 17)] : List (Ev Rat)).all (evCoreA toyCharSpec) = true := by
   decide
 
+/-! #### The analysis part in full: every gate of the analysis is irrelevant on `evCoreX` events
+
+  The analysis reads three flags, at four places; for each the syntactic predicate on the EVENT
+  that makes the gate unreachable or irrelevant (the converter of `env` is a parameter of two of
+  them, its extension set of none):
+  * MODES, `metadata`: the `>>` key is not `[…]` (`bracketedKey`);
+  * INLINE_QUANTITIES, text in a step: the text is not empty and the inline-quantity finder finds
+    nothing in it under the converter (`textCoreX`);
+  * ADVANCED_UNITS, `ingredient` (unit compatibility of a reference): no `&` modifier, or no
+    quantity (`ingrCoreX`) — in the default modes, which are kept as long as no `[…]` key is seen;
+  * ADVANCED_UNITS, `timer`: the value is not text and the unit, if any, is a time unit of the
+    converter (`timerCoreX`).
+  COMPONENT_MODIFIERS, COMPONENT_ALIAS, RANGE_VALUES, TIMER_REQUIRES_TIME and
+  INTERMEDIATE_PREPARATIONS are never read by the analysis. -/
+
+/-- INLINE_QUANTITIES: a step text in which the finder finds nothing (and which is not empty) is
+    handled alike under every extension set -/
+theorem C02_inline_irrelevant (env : Env) (e : Ext) (t : Text) (items : List Item)
+    (h : textCoreX α env t = true) :
+    inStepTextStep (α := α) (env.withExt e) t items = inStepTextStep env t items :=
+  inStepTextStep_extX env e t items h
+
+/-- ADVANCED_UNITS in `timer`: a numeric value and a time unit (or no unit, or no quantity) pass the
+    unit checks silently, so the timer is analysed alike under every extension set -/
+theorem C02_timer_units_irrelevant (env : Env) (e : Ext) (lt : Loc (PTimer α))
+    (h : timerCoreX env lt.val = true) : timerA (env.withExt e) lt = timerA env lt :=
+  timerA_extX env e lt h
+
+/-- ADVANCED_UNITS in `ingredient`: in the default modes an ingredient without `&`, or without a
+    quantity, never reaches the unit-compatibility checks, so it is analysed alike under every
+    extension set -/
+theorem C02_ref_units_irrelevant (env : Env) (e : Ext) (input : Str) (li : Loc (PIngredient α)) (s : Col α)
+    (hm : s.defineMode = .all ∧ s.duplicateMode = .new) (h : ingrCoreX li.val = true) :
+    ingredientA (env.withExt e) input li s = ingredientA env input li s :=
+  ingredientA_extX env e input li s hm h
+
+/-- … and the default modes are kept by every `evCoreX` event (only a `[mode]`/`[duplicate]` key
+    processed under MODES changes them) -/
+theorem C02_default_modes_kept (env : Env) (input : Str) (ev : Ev α) (s : Col α)
+    (hm : s.defineMode = .all ∧ s.duplicateMode = .new) (h : evCoreX α env ev = true) :
+    (processEvent env input ev s).2.defineMode = .all ∧ (processEvent env input ev s).2.duplicateMode = .new :=
+  processEvent_modes env input ev s hm h
+
+/-- C02, analysis part, full: on `evCoreX` events `parse_events` gives the same result (recipe
+    tables, metadata, diagnostics, panic flag) under EVERY extension set (all raw bit patterns);
+    no assumption on the ADVANCED_UNITS bit any more -/
+theorem C02_analysis_ext_irrelevant (env : Env) (e : Ext) (input : Str) (evs : List (Ev α))
+    (h : evs.all (evCoreX α env) = true) :
+    parseEvents (env.withExt e) input evs = parseEvents env input evs :=
+  parseEvents_extX env e input evs h
+
+/-- a converter that knows the time unit `min` only -/
+def C02.env : Env :=
+  ⟨toyCharSpec, ⟨0⟩, fun u => if u = ['m','i','n'] then some 0 else none, fun _ _ => .ok, fun c => [c], 0⟩
+
+/-- the premise is satisfiable beyond the partial theorem's: `>> servings: two`, the text
+    `Add 2 eggs.` (a digit, but `eggs.` is no unit), the timer `~{5%min}`, the reference `&eggs`
+    without quantity -/
+example : ([.metadata (Text.fromStr ['s','e','r','v','i','n','g','s'] 3) (Text.fromStr ['t','w','o'] 13),
+    .text (Text.fromStr ['A','d','d',' ','2',' ','e','g','g','s','.'] 17),
+    .timer ⟨⟨none, some ⟨⟨⟨⟨.number (.regular 5), ⟨30, 31⟩⟩, none⟩, some (Text.fromStr ['m','i','n'] 32)⟩, ⟨30, 35⟩⟩⟩, ⟨28, 36⟩⟩,
+    .ingredient ⟨⟨⟨⟨Modifiers.REF⟩, ⟨40, 41⟩⟩, none, Text.fromStr ['e','g','g','s'] 41, none, none, none⟩, ⟨39, 45⟩⟩] :
+      List (Ev Rat)).all (evCoreX Rat C02.env) = true := by
+  decide
+
+/-- the premise of the partial theorem (no ASCII digit in texts) implies the new one for texts -/
+theorem C02_textCore_weaker (env : Env) (t : Text) (h : textCore t = true) : textCoreX α env t = true :=
+  textCoreX_of_textCore env t h
+
+/-- C02, parser and analysis together: an input all of whose blocks are `UsesNone` and whose events
+    (the same under every extension set by `C02_pullEvents_ext_irrelevant`) are `evCoreX` gives the
+    same full result of `CooklangParser::parse` under every extension set -/
+theorem C02_parse_ext_irrelevant_events (env : Env) (e : Ext) (input : Str)
+    (hu : UsesNoneInput env.cs input = true)
+    (hev : (pullEvents (α := α) env.cs env.ext input).1.toList.all (evCoreX α env) = true) :
+    parseRecipe (α := α) (env.withExt e) input = parseRecipe env input :=
+  parseRecipe_extX env e input hu hev
+
+/-! #### What the parser produces for `UsesNone` blocks, and the full clause for `parse` -/
+
+/-- the events of an input all of whose blocks are `UsesNone` carry nothing for the MODES gate of
+    `metadata` and the ADVANCED_UNITS gate of `ingredient` to act on: no `>>` key is `[…]` (as the
+    analysis tests it), every ingredient has the empty modifier set and no intermediate reference
+    (so it is no `&` reference).  `KeyTestsAgree` says that the parser's `[…]` test (outer-trimmed
+    key) and the analysis' (spaces collapsed) agree; see `C02_key_tests_agree`. -/
+theorem C02_usesNone_events (cs : CharSpec) (hkey : KeyTestsAgree cs) (e : Ext) (input : List Char)
+    (h : UsesNoneInput cs input = true) :
+    ∀ ev ∈ (pullEvents (α := α) cs e input).1.toList,
+      (∀ k v, ev = .metadata k v → bracketedKey cs k = false) ∧
+      (∀ i, ev = .ingredient i → i.val.modifiers.val = Modifiers.empty ∧ i.val.inter = none) := by
+  intro ev hev
+  have := pullEvents_QSyn cs hkey e input h ev hev
+  refine ⟨?_, ?_⟩
+  · rintro k v rfl; exact this
+  · rintro i rfl; exact this
+
+/-- the two tests for a `[…]` key agree for every character table that classifies the ASCII
+    space as whitespace -/
+theorem C02_key_tests_agree (cs : CharSpec) (h : cs.uws ' ' = true) : KeyTestsAgree cs :=
+  keyTestsAgree_of_space cs h
+
+/-- C02, the main clause for `CooklangParser::parse`, model level, all inputs: when every block of
+    the input is `UsesNone` (token predicate) and its texts and timers satisfy the two premises
+    that depend on the converter (`evConvCore`: no inline quantity is found in a step text and no
+    text is empty; a timer's value is numeric and its unit a time unit), the FULL result of
+    `parse` — recipe tables, metadata, diagnostics, panic flag — is the same under every
+    extension set (all raw bit patterns).  Nothing is assumed about any extension bit. -/
+theorem C02_parse_ext_irrelevant (env : Env) (hws : env.cs.uws ' ' = true) (e : Ext) (input : Str)
+    (hu : UsesNoneInput env.cs input = true)
+    (hconv : (pullEvents (α := α) env.cs env.ext input).1.toList.all (evConvCore α env) = true) :
+    parseRecipe (α := α) (env.withExt e) input = parseRecipe env input :=
+  parseRecipe_ext_irrelevant env (keyTestsAgree_of_space env.cs hws) e input hu hconv
+
+/-- … in the symmetric form: any two extension sets -/
+theorem C02_parse_ext_irrelevant_two (env : Env) (hws : env.cs.uws ' ' = true) (e₁ e₂ : Ext) (input : Str)
+    (hu : UsesNoneInput env.cs input = true)
+    (hconv : (pullEvents (α := α) env.cs env.ext input).1.toList.all (evConvCore α env) = true) :
+    parseRecipe (α := α) (env.withExt e₁) input = parseRecipe (env.withExt e₂) input :=
+  (C02_parse_ext_irrelevant env hws e₁ input hu hconv).trans
+    (C02_parse_ext_irrelevant env hws e₂ input hu hconv).symm
+
+/-- `Mix @salt{} for ~{5%min}.` -/
+def C02.coreInput : List Char :=
+  ['M','i','x',' ','@','s','a','l','t','{','}',' ','f','o','r',' ','~','{','5','%','m','i','n','}','.']
+
+/-- the premises are satisfiable: that input with the converter that knows `min` -/
+example : C02.env.cs.uws ' ' = true ∧
+    UsesNoneInput C02.env.cs C02.coreInput = true ∧
+    (pullEvents (α := Rat) C02.env.cs C02.env.ext C02.coreInput).1.toList.all (evConvCore Rat C02.env) = true := by
+  decide +kernel
+
+/-! #### Locality: each extension changes only its own construct (parser)
+
+  `AgreeOn G e₁ e₂`: the two extension sets answer alike for every flag of the list `G`.
+  Flags covered at block level here: the eight flags jointly (`C02_parser_flags_only`: no other bit
+  of the raw pattern matters), INLINE_QUANTITIES (`C02_inline_local_parser`: never read by the
+  parser, no trigger pattern needed), MODES (`C02_modes_local`: trigger = a `>> [key]` line, the
+  block may use every other extension's syntax).  For the other flags the per-gate statements are
+  `C02_modifiers_irrelevant` (COMPONENT_MODIFIERS and INTERMEDIATE_PREPARATIONS; trigger: one of
+  `@ & ? + -` after the marker), `C02_alias_irrelevant` (COMPONENT_ALIAS; `|` in the name),
+  `C02_range_irrelevant` (RANGE_VALUES; `-` in the value), `C02_advanced_irrelevant` /
+  `C02_advanced_declines` (ADVANCED_UNITS; value, blank, word without `%`),
+  `C02_timer_time_irrelevant` and `C02_timer_time_noQuantity` (TIMER_REQUIRES_TIME; a timer without
+  quantity); at block level these five are proved jointly (`C02_parser_ext_irrelevant`), the
+  single-flag block-level versions with the other constructs present are not proved. -/
+
+/-- the parser (any block, any events before it) depends on the extension set only through the
+    seven flags it reads: raw patterns that agree on them (for instance patterns that differ in
+    undefined bits, or in one of the two bits of INTERMEDIATE_PREPARATIONS while
+    COMPONENT_MODIFIERS and INTERMEDIATE_PREPARATIONS answer alike) give the same events -/
+theorem C02_parser_flags_only (cs : CharSpec) (e₁ e₂ : Ext) (oldStyle : Bool) (block : List Tok)
+    (evs : Array (Ev α)) (p : Option String) (ha : AgreeOn parserFlags e₁ e₂) :
+    runBlock cs e₁ oldStyle block evs p = runBlock cs e₂ oldStyle block evs p :=
+  runBlock_flags_only cs e₁ e₂ oldStyle block evs p ha
+
+/-- INLINE_QUANTITIES does not touch the parser: two extension sets that differ only in it (they
+    agree on the seven parser flags) give the same event stream on EVERY input -/
+theorem C02_inline_local_parser (cs : CharSpec) (e₁ e₂ : Ext) (input : List Char)
+    (ha : AgreeOn parserFlags e₁ e₂) : pullEvents (α := α) cs e₁ input = pullEvents cs e₂ input :=
+  pullEvents_congr cs e₁ e₂ input (fun _ => true) (by unfold AllBlocksOf; simp)
+    (fun oldStyle b _ evs p => runBlock_flags_only cs e₁ e₂ oldStyle b evs p ha)
+
+/-- MODES changes only `>> [key]` lines: two extension sets that differ only in MODES (they agree
+    on the other six parser flags) give the same events on every block that is not such a line —
+    the block may use modifiers, aliases, ranges, advanced units, timers without quantity -/
+theorem C02_modes_local (cs : CharSpec) (e₁ e₂ : Ext) (oldStyle : Bool) (block : List Tok)
+    (evs : Array (Ev α)) (p : Option String) (ha : AgreeOn parserFlagsNoModes e₁ e₂)
+    (hm : metaKeyCore cs block = true) :
+    runBlock cs e₁ oldStyle block evs p = runBlock cs e₂ oldStyle block evs p :=
+  runBlock_modes_local cs e₁ e₂ oldStyle block evs p ha hm
+
+/-- … and so on a whole input none of whose blocks is a `>> [key]` line -/
+theorem C02_modes_local_input (cs : CharSpec) (e₁ e₂ : Ext) (input : List Char)
+    (ha : AgreeOn parserFlagsNoModes e₁ e₂) (hm : AllBlocksOf cs input (metaKeyCore cs) = true) :
+    pullEvents (α := α) cs e₁ input = pullEvents cs e₂ input :=
+  pullEvents_congr cs e₁ e₂ input (metaKeyCore cs) hm
+    (fun oldStyle b hb evs p => runBlock_modes_local cs e₁ e₂ oldStyle b evs p ha hb)
+
+/-- the hypotheses are satisfiable by sets that really differ: `{MODES}` and `∅` agree on the
+    other six flags; `{INLINE_QUANTITIES}` and `∅` on all seven; the block `@?a|b{1-2}` (modifier,
+    alias, range) is not a `>> [key]` line -/
+example : AgreeOn parserFlagsNoModes ⟨Gen.EXT_MODES⟩ ⟨0⟩ ∧ AgreeOn parserFlags ⟨Gen.EXT_INLINE_QUANTITIES⟩ ⟨0⟩ ∧
+    (⟨Gen.EXT_MODES⟩ : Ext).has Gen.EXT_MODES ≠ (⟨0⟩ : Ext).has Gen.EXT_MODES ∧
+    metaKeyCore toyCharSpec (C02.toks [(.at, ['@']), (.question, ['?']), (.word, ['a']), (.or, ['|']),
+      (.word, ['b']), (.openBrace, ['{']), (.int, ['1']), (.minus, ['-']), (.int, ['2']), (.closeBrace, ['}'])]) = true := by
+  refine ⟨?_, ?_, by decide, by decide⟩
+  · intro g hg
+    simp only [parserFlagsNoModes, List.mem_cons, List.mem_nil_iff, or_false] at hg
+    rcases hg with rfl | rfl | rfl | rfl | rfl | rfl <;> decide
+  · intro g hg
+    simp only [parserFlags, List.mem_cons, List.mem_nil_iff, or_false] at hg
+    rcases hg with rfl | rfl | rfl | rfl | rfl | rfl | rfl <;> decide
+
 /-! ### The converse clause, remaining gates: a disabled extension's syntax is core text -/
 
 /-- with ADVANCED_UNITS off `parse_quantity` is exactly the regular quantity parser (value up to
@@ -196,6 +393,76 @@ theorem C02_inline_off (env : Env) (t : Text) (items : List Item) (s : Col α)
     inStepTextStep env t items s =
       ((), { s with block := some (BlockBuf.step (items ++ [Item.text t.text])) }) :=
   inStepTextStep_inline_off env t items s h hd
+
+/-- TIMER_REQUIRES_TIME, the converse clause, for every name: on `~name` (a run of word/number
+    tokens after the `~`, no `{` before the next marker, no `(` right after the name, the name not
+    blank and its tokens adjacent) with the flag OFF the timer is accepted as written — a timer
+    event with that name and no quantity, spanning `~name`, the cursor after the name, and NO event
+    pushed (no error, no warning), no panic flag set -/
+theorem C02_timer_time_off (s : BP α) (t : Tok) (ht : s.toks[s.cur]? = some t) (hk : t.kind = .tilde)
+    (hl : longBody (s.toks.drop (s.cur + 1)) = none) (hne : shortName s ≠ [])
+    (hnote : ∀ t', s.toks[s.cur + 1 + (shortName s).length]? = some t' → t'.kind ≠ .openParen)
+    (hbad : (buildText (offAt s.toks (s.cur + 1)) (shortName s)).bad = false)
+    (hname : (buildText (offAt s.toks (s.cur + 1)) (shortName s)).isTextEmpty s.cs = false)
+    (hoff : s.ext.has Gen.EXT_TIMER_REQUIRES_TIME = false) :
+    timerP s =
+      (some (.timer ⟨⟨some (buildText (offAt s.toks (s.cur + 1)) (shortName s)), none⟩,
+          ⟨offAt s.toks s.cur, offAt s.toks (s.cur + 1 + (shortName s).length)⟩⟩),
+       { s with cur := s.cur + 1 + (shortName s).length }) := by
+  rw [timerP_short s t ht hk hl hne hnote hbad hname, hoff]
+  rfl
+
+/-- … and with the flag ON the same input yields the documented error `timer-missing-quantity`
+    (one error event, labelled at the end of the name) and the timer event carries the recovery
+    quantity; everything else (name, span, cursor, panic flag) is as with the flag off -/
+theorem C02_timer_time_on (s : BP α) (t : Tok) (ht : s.toks[s.cur]? = some t) (hk : t.kind = .tilde)
+    (hl : longBody (s.toks.drop (s.cur + 1)) = none) (hne : shortName s ≠ [])
+    (hnote : ∀ t', s.toks[s.cur + 1 + (shortName s).length]? = some t' → t'.kind ≠ .openParen)
+    (hbad : (buildText (offAt s.toks (s.cur + 1)) (shortName s)).bad = false)
+    (hname : (buildText (offAt s.toks (s.cur + 1)) (shortName s)).isTextEmpty s.cs = false)
+    (hon : s.ext.has Gen.EXT_TIMER_REQUIRES_TIME = true) :
+    timerP s =
+      (some (.timer ⟨⟨some (buildText (offAt s.toks (s.cur + 1)) (shortName s)), some recoverPQuantity⟩,
+          ⟨offAt s.toks s.cur, offAt s.toks (s.cur + 1 + (shortName s).length)⟩⟩),
+       { s with cur := s.cur + 1 + (shortName s).length,
+                evs := s.evs.push (.error ⟨.error, .parse, "timer-missing-quantity",
+                  [Span.pos (buildText (offAt s.toks (s.cur + 1)) (shortName s)).span.stop]⟩) }) := by
+  rw [timerP_short s t ht hk hl hne hnote hbad hname, hon]
+  rfl
+
+/-- the same for any body without quantity that `comp_body` returns (`~name` and `~name{}` alike,
+    `close` being the span of the braces): the flag decides between "accepted, nothing pushed" and
+    "error `timer-missing-quantity` at the braces (or at the end of the name) + recovery quantity";
+    all other extension bits are irrelevant here (no modifier character after the `~`, no `|` in
+    the name) -/
+theorem C02_timer_time_noQuantity (s : BP α) (t : Tok) (ht : s.toks[s.cur]? = some t) (hk : t.kind = .tilde)
+    (hmod : ∀ t', s.toks[s.cur + 1]? = some t' → isModStart t'.kind = false)
+    (name : List Tok) (close : Option Span) (c2 : Nat)
+    (hb : compBody ({ s with cur := s.cur + 1 } : BP α) = (some ⟨name, close, none⟩, { s with cur := c2 }))
+    (hor : name.any (fun t => t.kind == .or) = false)
+    (hnote : ∀ t', s.toks[c2]? = some t' → t'.kind ≠ .openParen)
+    (hbad : (buildText (offAt s.toks (s.cur + 1)) name).bad = false)
+    (hname : (buildText (offAt s.toks (s.cur + 1)) name).isTextEmpty s.cs = false) :
+    timerP s =
+      if s.ext.has Gen.EXT_TIMER_REQUIRES_TIME then
+        (some (.timer ⟨⟨some (buildText (offAt s.toks (s.cur + 1)) name), some recoverPQuantity⟩,
+            ⟨offAt s.toks s.cur, offAt s.toks c2⟩⟩),
+         { s with cur := c2,
+                  evs := s.evs.push (timerMissingQuantity close (buildText (offAt s.toks (s.cur + 1)) name)) })
+      else
+        (some (.timer ⟨⟨some (buildText (offAt s.toks (s.cur + 1)) name), none⟩,
+            ⟨offAt s.toks s.cur, offAt s.toks c2⟩⟩), { s with cur := c2 }) :=
+  timerP_noQuantity s t ht hk hmod name close c2 hb hor hnote hbad hname
+
+/-- the hypotheses are satisfiable: the block `Wait ~rest now` at the `~` (cursor 2) -/
+example : let s : BP Rat := ⟨C02.toks [(.word, ['W','a','i','t']), (.ws, [' ']), (.tilde, ['~']),
+      (.word, ['r','e','s','t']), (.ws, [' ']), (.word, ['n','o','w'])], 2, ⟨0⟩, toyCharSpec, #[], none⟩
+    (∃ t, s.toks[s.cur]? = some t ∧ t.kind = .tilde) ∧
+    longBody (s.toks.drop (s.cur + 1)) = none ∧ shortName s ≠ [] ∧
+    (∀ t', s.toks[s.cur + 1 + (shortName s).length]? = some t' → t'.kind ≠ .openParen) ∧
+    (buildText (offAt s.toks (s.cur + 1)) (shortName s)).bad = false ∧
+    (buildText (offAt s.toks (s.cur + 1)) (shortName s)).isTextEmpty s.cs = false := by
+  decide
 
 /-- a coarse observation of an event list (enough to tell the readings apart) -/
 def C02.evTag : Ev Rat → Nat
